@@ -1,12 +1,14 @@
 #!/bin/bash
 # imports finished seeded changes of a wave (out2_*) that are not in /verif/seeded yet, verifies and runs detection
-for d in /tmp/mut/${1:-out2}_*/C*; do
+W=${2:-2}
+for d in /tmp/mut/${1:-out2}_*/[CM]*; do
   [ -f $d/patch.diff ] && [ -f $d/meta.json ] || continue
   ls $d/*.go >/dev/null 2>&1 || continue
-  id=$(basename $d); n=$(basename $(dirname $d) | sed 's/.*_//'); name="${id%-*}-${n}2${id##*-}"
+  id=$(basename $d); n=$(basename $(dirname $d) | sed 's/.*_//'); name="$(python3 -c "import json;print(json.load(open(\"$d/meta.json\"))[\"property\"])")-${n}${W}${id#M}"
   [ -d /verif/seeded/$name ] && continue
   mkdir -p /verif/seeded/$name; cp $d/patch.diff $d/meta.json /verif/seeded/$name/
   f=$(ls $d/*_test.go $d/demo_test.go 2>/dev/null | head -1); cp $f /verif/seeded/$name/demo_test.go.txt
   /verif/tools_seeded.sh $name verify 2>&1 | tail -3
-  /verif/tools_seeded.sh $name detect 2>&1 | grep detect | cut -c1-200
+  also=$(python3 -c "import json;print(' '.join(json.load(open('$d/meta.json')).get('also',[])))")
+  /verif/tools_seeded.sh $name detect $also 2>&1 | grep detect | cut -c1-200
 done
